@@ -10,6 +10,9 @@ type classicEvents struct {
 	onLogin      func(e *proxy.LoginEvent)
 	onDisconnect func(e *proxy.DisconnectEvent)
 	onPreLogin   func(e *proxy.PreLoginEvent)
+	onPostConnect func(e *proxy.ServerPostConnectEvent)
+	// Connected counts ServerPostConnectEvents per player name (the proxy finished a join/switch).
+	Connected map[string]int
 }
 
 var eventsOf = map[*classicWorld]*classicEvents{}
@@ -18,7 +21,7 @@ func proxyEvents(w *classicWorld) *classicEvents {
 	if ce, ok := eventsOf[w]; ok {
 		return ce
 	}
-	ce := &classicEvents{}
+	ce := &classicEvents{Connected: map[string]int{}}
 	eventsOf = map[*classicWorld]*classicEvents{w: ce} // only the current world is kept
 	event.Subscribe(w.ev, 0, func(e *proxy.LoginEvent) {
 		if ce.onLogin != nil {
@@ -33,6 +36,12 @@ func proxyEvents(w *classicWorld) *classicEvents {
 	event.Subscribe(w.ev, 0, func(e *proxy.PreLoginEvent) {
 		if ce.onPreLogin != nil {
 			ce.onPreLogin(e)
+		}
+	})
+	event.Subscribe(w.ev, 0, func(e *proxy.ServerPostConnectEvent) {
+		ce.Connected[e.Player().Username()]++
+		if ce.onPostConnect != nil {
+			ce.onPostConnect(e)
 		}
 	})
 	return ce
